@@ -8,7 +8,7 @@ from hypothesis import strategies as st
 from ..core import sampled_from  # noqa: E402
 
 from .. import build, meshgen
-from ..core import Failure
+from ..core import Failure, need
 
 ID = "C15"
 RULE = (
@@ -310,11 +310,11 @@ def _run_am_set(case, ctx):
         am, _ = _am_faces(mesh, lon0)
         ctx.ev("exclude_drops_exactly")
         if what == "gdf":
-            n = len(g.to_geodataframe(periodic_elements="exclude", projection=proj, engine=engine))
+            n = len(need(g.to_geodataframe(periodic_elements="exclude", projection=proj, engine=engine), "columns", "Grid.to_geodataframe"))
         elif what == "poly":
-            n = len(g.to_polycollection(periodic_elements="exclude", projection=proj).get_paths())
+            n = len(need(g.to_polycollection(periodic_elements="exclude", projection=proj), "get_paths", "Grid.to_polycollection").get_paths())
         else:
-            n = len(g.to_linecollection(periodic_elements="exclude", projection=proj).get_segments())
+            n = len(need(g.to_linecollection(periodic_elements="exclude", projection=proj), "get_segments", "Grid.to_linecollection").get_segments())
         if n != n_face - len(am):
             fails.append(Failure("exclude_drops_exactly", site, "count", f"{n} elements left of {n_face} faces, {len(am)} of which have an edge spanning >= 180 degrees about longitude {lon0}: {am}"))
             return fails
@@ -577,11 +577,11 @@ def run_case(case, ctx):
                 return fails
         if call in ("grid_gdf", "da_gdf"):
             if call == "grid_gdf":
-                obj = g.to_geodataframe(engine=step["engine"], **kw)
+                obj = need(g.to_geodataframe(engine=step["engine"], **kw), "columns", "Grid.to_geodataframe")
                 var = None
             else:
                 var = step["var"]
-                obj = das[var].to_geodataframe(engine=step["engine"], **kw)
+                obj = need(das[var].to_geodataframe(engine=step["engine"], **kw), "columns", "UxDataArray.to_geodataframe")
             cols = list(obj.columns)
             want_cols = ["geometry"] if var is None else ["geometry", f"v{var}"]
             if cols != want_cols:
@@ -594,11 +594,11 @@ def run_case(case, ctx):
             returned.append((si, "gdf", obj, snapshot("gdf", obj)))
         elif call in ("grid_poly", "da_poly"):
             if call == "grid_poly":
-                obj = g.to_polycollection(**kw)
+                obj = need(g.to_polycollection(**kw), "get_paths", "Grid.to_polycollection")
                 var, vals = None, None
             else:
                 var = step["var"]
-                obj = das[var].to_polycollection(**kw)
+                obj = need(das[var].to_polycollection(**kw), "get_paths", "UxDataArray.to_polycollection")
                 arr = obj.get_array()
                 vals = None if arr is None else np.asarray(arr, float)
                 if vals is None:
@@ -609,7 +609,7 @@ def run_case(case, ctx):
                 return fails
             returned.append((si, "poly", obj, snapshot("poly", obj)))
         else:
-            obj = g.to_linecollection(**kw)
+            obj = need(g.to_linecollection(**kw), "get_segments", "Grid.to_linecollection")
             segs = [np.asarray(s) for s in obj.get_segments()]
             ctx.ev("lines_are_face_boundaries")
             if per != "split":
